@@ -4,7 +4,7 @@ ID = "C19"
 LEVEL = "other"
 TAGS = ("C19",)
 CONTRACT_MODULES = ALL_CONTRACTS
-FUNCTIONS = [H + "_handle_" + c for c in ("G0", "G1", "G2", "G3", "G28", "G92", "G10")] + [H + "handleGcode"]
+FUNCTIONS = [H + "_handle_" + c for c in ("G0", "G1", "G2", "G3", "G28", "G92", "G10")] + [H + "handleGcode"] + ["GcodeParser.GcodeParser._updateParameters"]
 ASSUMPTIONS = ["A1", "A2", "A4"]
 BOUNDED = [script("param_items.py")]
 EXPLANATION = ("Handler half (deductive, for item sequences of ANY length): loop invariants prove that G0/G1/G2/G3/G92 act on the LAST "
